@@ -64,6 +64,7 @@ structure Env where
   glyphAttr : Nat → Int → Int          -- glyph attribute id, slot offset
   feat : Nat → Int → Int               -- feature index, slot offset
   metric : Nat → Int → Int := fun _ _ => 0   -- glyph metric id (advance width ...), slot offset
+  attGlyphAttr : Nat → Int → Int := fun _ _ => 0   -- glyph attribute of the slot's attach.to target (+ offset)
 
 inductive AOp where
   | push (n : Int)
@@ -74,6 +75,7 @@ inductive AOp where
   | glyphAttr (id : Nat) (off : Int)
   | feat (f : Nat) (off : Int)
   | metric (m : Nat) (off : Int)
+  | attGlyphAttr (id : Nat) (off : Int)
   deriving Repr, DecidableEq
 
 /-- One instruction on the value stack (top first). -/
@@ -90,6 +92,7 @@ def stepA (env : Env) (op : AOp) (st : List Int) : Option (List Int) :=
   | .glyphAttr g off, st => some (env.glyphAttr g off :: st)
   | .feat f off, st => some (env.feat f off :: st)
   | .metric m off, st => some (env.metric m off :: st)
+  | .attGlyphAttr g off, st => some (env.attGlyphAttr g off :: st)
 
 def runA (env : Env) : List AOp → List Int → Option (List Int)
   | [], st => some st
@@ -103,6 +106,7 @@ inductive SExpr where
   | glyphAttr (id : Nat) (off : Int)
   | feat (f : Nat) (off : Int)
   | metric (m : Nat) (off : Int)
+  | attGlyphAttr (id : Nat) (off : Int)
   | un (op : UnOp) (e : SExpr)
   | bin (op : BinOp) (a b : SExpr)
   | cond (c t f : SExpr)
@@ -115,6 +119,7 @@ def evalS (env : Env) : SExpr → Option Int
   | .glyphAttr g off => some (env.glyphAttr g off)
   | .feat f off => some (env.feat f off)
   | .metric m off => some (env.metric m off)
+  | .attGlyphAttr g off => some (env.attGlyphAttr g off)
   | .un o e => (evalS env e).map (unVal o)
   | .bin o a b =>
     match evalS env a, evalS env b with
@@ -147,6 +152,7 @@ def dstepA (op : AOp) (st : List SExpr) : Option (List SExpr) :=
   | .glyphAttr g off, st => some (.glyphAttr g off :: st)
   | .feat f off, st => some (.feat f off :: st)
   | .metric m off, st => some (.metric m off :: st)
+  | .attGlyphAttr g off, st => some (.attGlyphAttr g off :: st)
 
 def decompA : List AOp → List SExpr → Option (List SExpr)
   | [], st => some st
@@ -160,6 +166,7 @@ theorem dstep_sound (env : Env) (op : AOp) (st st' : List SExpr) (h : dstepA op 
   | glyphAttr g off => simp [dstepA] at h; subst h; simp [evalStack, evalS]; cases evalStack env st <;> simp [stepA]
   | feat f off => simp [dstepA] at h; subst h; simp [evalStack, evalS]; cases evalStack env st <;> simp [stepA]
   | metric m off => simp [dstepA] at h; subst h; simp [evalStack, evalS]; cases evalStack env st <;> simp [stepA]
+  | attGlyphAttr g off => simp [dstepA] at h; subst h; simp [evalStack, evalS]; cases evalStack env st <;> simp [stepA]
   | un o =>
     match st, h with
     | a :: rest, h =>
@@ -228,6 +235,7 @@ theorem noDiv_total (env : Env) (e : SExpr) (h : noDiv e = true) : ∃ v, evalS 
   | glyphAttr g off => exact ⟨_, rfl⟩
   | feat f off => exact ⟨_, rfl⟩
   | metric m off => exact ⟨_, rfl⟩
+  | attGlyphAttr g off => exact ⟨_, rfl⟩
   | un o e ih =>
     simp [noDiv] at h
     obtain ⟨v, hv⟩ := ih h
@@ -273,6 +281,7 @@ theorem evalS_fold (env : Env) (e : SExpr) : evalS env (fold e) = evalS env e :=
   | glyphAttr g off => rfl
   | feat f off => rfl
   | metric m off => rfl
+  | attGlyphAttr g off => rfl
   | un o e ih =>
     simp only [fold]
     split
@@ -345,6 +354,7 @@ theorem evalS_foldC (env : Env) (e : SExpr) (v : Int) (h : evalS env e = some v)
   | glyphAttr g off => exact h
   | feat f off => exact h
   | metric m off => exact h
+  | attGlyphAttr g off => exact h
   | un o e ih =>
     simp only [evalS] at h
     cases he : evalS env e with
@@ -485,6 +495,8 @@ def classify (i : Code.Ins) : Option AOp :=
   else if i.op = kopPushGlyphAttr then (match a with | [gh, gl, off] => some (.glyphAttr (gh * 256 + gl) (s8 off)) | _ => none)
   else if i.op = kopPushFeat then (match a with | [f, off] => some (.feat f (s8 off)) | _ => none)
   else if i.op = kopPushGlyphMetric then (match a with | [m, off, _lvl] => some (.metric m (s8 off)) | _ => none)
+  else if i.op = kopPushAttToGAttrV1_2 then (match a with | [g, off] => some (.attGlyphAttr g (s8 off)) | _ => none)
+  else if i.op = kopPushAttToGlyphAttr then (match a with | [gh, gl, off] => some (.attGlyphAttr (gh * 256 + gl) (s8 off)) | _ => none)
   else none
 
 end Grc.Sem
